@@ -6,7 +6,8 @@
   sub-selection against a fragment spread in the other": not a certificate for every field reachable through the
   fragment (the search may have met the triple before and returned at once), only that the triple is COVERED by the
   memo (`FCov`). The memo is closed key by key: `KeyOblM` (pairs, as before), `FOblM` (triples: direct fields certified,
-  nested spreads covered). `clause_of_certsM`: closed memo + a `WithinCertM` for every selection set ⇒ the clause of
+  nested spreads covered - UNLESS the fragment's body is the selection set itself: the code returns at the
+  `field_map is fragment_field_map` test, nothing is claimed, and `lvFM_of` falls back on the `WithinCertM` of that set). `clause_of_certsM`: closed memo + a `WithinCertM` for every selection set ⇒ the clause of
   5.3.2 (induction on the height of the conflict; triples are chased through the memo along the spread path).
 -/
 import PyGqlModel.Lemmas.ValidateOverlapPost3
